@@ -27,6 +27,10 @@ pub struct Scn {
     /// 0 load-all, 1 load-for-resource, 2 append
     pub entry_point: u8,
     pub ops: Vec<Op>,
+    /// entries opened on the rules' resource BEFORE the rules are loaded (a rule arriving while calls
+    /// are in flight); they are exited by later Exit ops or at the end
+    #[serde(default)]
+    pub early: u8,
 }
 
 pub struct C12;
@@ -111,7 +115,7 @@ impl Prop for C12 {
         }
     }
     fn rule_text(&self) -> &'static str {
-        "seeded walk over the rule space: 1-2 rules of one family drawn from the cross product of all enum-valued fields (strategies incl. unregistered custom ones, relation to another resource incl. one never seen, metric types) with boundary numerics inside the sane range and out-of-range values (negative, NaN, zero duration, empty/blank names), loaded through load-all / load-for-resource / append, followed by 3-12 entries (one run in ten: a valid hotspot rule with a parameter cache of 1-3 values and 6-16 single-argument entries over four values) (batch {0,1,2,10^6}, no/short/long argument lists, attachments, inbound/outbound, empty resource name), time steps and exits; every call under catch_unwind and the run watchdog; rules rejected by the validity check must not be reported; a health probe of all five managers and of an unrelated resource must succeed afterwards. Non-trivial = a rule accepted by the validity check was loaded and >= 1 entry was built against it; distinct = distinct trace hash."
+        "seeded walk over the rule space: 1-2 rules of one family drawn from the cross product of all enum-valued fields (strategies incl. unregistered custom ones, relation to another resource incl. one never seen, metric types) with boundary numerics inside the sane range and out-of-range values (negative, NaN, zero duration, empty/blank names), loaded through load-all / load-for-resource / append (one run in four with 1-3 entries already in flight on the resource when the rules arrive), followed by 3-12 entries (one run in ten: a valid hotspot rule with a parameter cache of 1-3 values and 6-16 single-argument entries over four values) (batch {0,1,2,10^6}, no/short/long argument lists, attachments, inbound/outbound, empty resource name), time steps and exits; every call under catch_unwind and the run watchdog; rules rejected by the validity check must not be reported; a health probe of all five managers and of an unrelated resource must succeed afterwards. Non-trivial = a rule accepted by the validity check was loaded and >= 1 entry was built against it; distinct = distinct trace hash."
     }
     fn components(&self) -> Value {
         json!({"real": ["sentinel-core: all five rule families (validity checks, managers, builders, slots, checkers, calculators), EntryBuilder, slot chain"],
@@ -209,9 +213,11 @@ impl Prop for C12 {
                     _ => ops.push(Op::Adv { ms: *rng.pick(&[1u64, 499, 1000]) }),
                 }
             }
-            return serde_json::to_value(Scn { epoch_ns, rules: vec![rule], extra: None, entry_point, ops }).unwrap();
+            let early = if rng.chance(1, 3) { rng.range(1, 3) as u8 } else { 0 };
+            return serde_json::to_value(Scn { epoch_ns, rules: vec![rule], extra: None, entry_point, ops, early }).unwrap();
         }
-        serde_json::to_value(Scn { epoch_ns, rules, extra, entry_point, ops }).unwrap()
+        let early = if rng.chance(1, 4) { rng.range(1, 3) as u8 } else { 0 };
+        serde_json::to_value(Scn { epoch_ns, rules, extra, entry_point, ops, early }).unwrap()
     }
 
     fn execute(&self, scenario: &Value, cov: &mut Cov) -> RunResult {
@@ -239,6 +245,11 @@ impl Prop for C12 {
                 c.rules.remove(i);
                 out.push(serde_json::to_value(c).unwrap());
             }
+        }
+        if sc.early > 0 {
+            let mut c = sc.clone();
+            c.early -= 1;
+            out.push(serde_json::to_value(c).unwrap());
         }
         if sc.extra.is_some() {
             let mut c = sc.clone();
@@ -295,6 +306,17 @@ fn run(sc: &Scn, w: &mut World, tr: &mut Trace, cov: &mut Cov) -> Option<Violati
             ));
         }
         cov.hit("with_rule_of_second_family");
+    }
+    // ---- calls that are already in flight when the rules arrive
+    if sc.early > 0 {
+        let r0 = sc.rules[0].res();
+        for k in 0..sc.early {
+            let arg = ["a", "b"][k as usize % 2].to_string();
+            if let Err((loc, msg)) = guarded(|| w.enter(&r0, 1, false, Some(vec![arg.clone()]), None)) {
+                return Some(Violation::new(format!("C12/{}/build-before-load/panic", f), 0, format!("at {}: {}", loc, msg)));
+            }
+        }
+        cov.hit("entries_in_flight_when_rules_arrive");
     }
     // ---- load through the chosen entry point
     let ep_name = ["load", "load-for-resource", "append"][sc.entry_point as usize % 3];
